@@ -283,6 +283,65 @@ class Instance:
 
 
 # ----------------------------------------------------------------------------------------------
+def graph_components(inst):
+    """strongly connected components (as lists of element indices) of the 'graph of elements': arc (i, j) iff placing
+    i after j is not a cheapest placement of the pair, i.e. after(i,j) > before(i,j) or after(i,j) > tied(i,j).
+    Returned in a topological order of the condensation (sources first).  Plain Kosaraju; independent of igraph."""
+    n = inst.n
+    adj = [[] for _ in range(n)]
+    radj = [[] for _ in range(n)]
+    for i in range(n):
+        for j in range(n):
+            if i != j:
+                after = inst.before[j][i]
+                if after > inst.before[i][j] or after > inst.tied[i][j]:
+                    adj[i].append(j)
+                    radj[j].append(i)
+    order, seen = [], [False] * n
+    for s0 in range(n):
+        if seen[s0]:
+            continue
+        stack = [(s0, 0)]
+        seen[s0] = True
+        while stack:
+            v, k = stack.pop()
+            if k < len(adj[v]):
+                stack.append((v, k + 1))
+                w = adj[v][k]
+                if not seen[w]:
+                    seen[w] = True
+                    stack.append((w, 0))
+            else:
+                order.append(v)
+    comp = [-1] * n
+    comps = []
+    for s0 in reversed(order):
+        if comp[s0] != -1:
+            continue
+        cid = len(comps)
+        comps.append([])
+        stack = [s0]
+        comp[s0] = cid
+        while stack:
+            v = stack.pop()
+            comps[cid].append(v)
+            for w in radj[v]:
+                if comp[w] == -1:
+                    comp[w] = cid
+                    stack.append(w)
+    return comps
+
+
+def can_be_all_tied(inst, ids):
+    for a in range(len(ids)):
+        for b in range(a + 1, len(ids)):
+            i, j = ids[a], ids[b]
+            if inst.tied[i][j] > min(inst.before[i][j], inst.before[j][i]):
+                return False
+    return True
+
+
+# ----------------------------------------------------------------------------------------------
 def weak_orders(elements):
     """all rankings with ties (ordered set partitions) of the given list"""
     elements = list(elements)
